@@ -554,6 +554,12 @@ size_t ZSTD_seekable_decompress(ZSTD_seekable* zs, void* dst, size_t len, unsign
                     return ERROR(corruption_detected);
                 }
 
+                /* a completed frame must end where the seek table says it ends,
+                 * otherwise the table is corrupted and looking up the next frame could loop forever */
+                if (zs->decompressedOffset != zs->seekTable.entries[targetFrame+1].dOffset) {
+                    return ERROR(corruption_detected);
+                }
+
                 if (zs->decompressedOffset < offset + len) {
                     /* go back to the start and force a reset of the stream */
                     targetFrame = ZSTD_seekable_offsetToFrameIndex(zs, zs->decompressedOffset);
